@@ -123,10 +123,16 @@ pub struct MemEp {
     curw: std::io::Cursor<&'static mut [u8]>,
     /// calls made with a non-empty buffer
     pub ncalls: usize,
+    /// where the cursors started (may be past the end)
+    start: usize,
 }
 
 impl MemEp {
     pub fn new(kind: u8, total: usize) -> Box<MemEp> {
+        Self::new_at(kind, total, 0)
+    }
+    /// cursor kinds start at `start` (which may lie past the end of their data)
+    pub fn new_at(kind: u8, total: usize, start: usize) -> Box<MemEp> {
         let data: Vec<u8> = (0..total).map(stream_byte).collect();
         let mut sink = vec![0u8; total];
         let mut sink2 = vec![0u8; total];
@@ -134,7 +140,13 @@ impl MemEp {
         let rd: &'static [u8] = unsafe { std::slice::from_raw_parts(data.as_ptr(), data.len()) };
         let wr: &'static mut [u8] = unsafe { std::slice::from_raw_parts_mut(sink.as_mut_ptr(), sink.len()) };
         let w2: &'static mut [u8] = unsafe { std::slice::from_raw_parts_mut(sink2.as_mut_ptr(), sink2.len()) };
-        Box::new(MemEp { kind: kind % 3, rd, cur: std::io::Cursor::new(rd), curv: std::io::Cursor::new(data.clone()), data, sink, sink2, wr, vec: Vec::new(), curw: std::io::Cursor::new(w2), ncalls: 0 })
+        let me = Box::new(MemEp { kind: kind % 3, rd, cur: std::io::Cursor::new(rd), curv: std::io::Cursor::new(data.clone()), data, sink, sink2, wr, vec: Vec::new(), curw: std::io::Cursor::new(w2), ncalls: 0, start: 0 });
+        let mut me = me;
+        me.cur.set_position(start as u64);
+        me.curv.set_position(start as u64);
+        me.curw.set_position(start as u64);
+        me.start = start;
+        me
     }
     pub fn name(&self, read: bool) -> &'static str {
         match (read, self.kind) {
@@ -150,8 +162,8 @@ impl MemEp {
     pub fn consumed(&self) -> usize {
         match self.kind {
             0 => self.data.len() - self.rd.len(),
-            1 => (self.cur.position() as usize).min(self.data.len()),
-            _ => (self.curv.position() as usize).min(self.data.len()),
+            1 => (self.cur.position() as usize).min(self.data.len()) - self.start.min(self.data.len()),
+            _ => (self.curv.position() as usize).min(self.data.len()) - self.start.min(self.data.len()),
         }
     }
     /// bytes the writer accepted, in order
@@ -159,7 +171,7 @@ impl MemEp {
         match self.kind {
             0 => self.sink[..self.sink.len() - self.wr.len()].to_vec(),
             1 => self.vec.clone(),
-            _ => self.sink2[..(self.curw.position() as usize).min(self.sink2.len())].to_vec(),
+            _ => self.sink2[self.start.min(self.sink2.len())..(self.curw.position() as usize).min(self.sink2.len())].to_vec(),
         }
     }
 }
@@ -417,7 +429,13 @@ impl Scenario for Stream {
             // the same script can instead be played by a real descriptor whose read(2)/write(2)
             // outcomes the syscall seam decides
             let use_fd = !use_mem && epk <= 2;
-            let mut memep = MemEp::new(cx().a(3) as u8, stream_total);
+            // cursor adapters start at 0 or, now and then, at / past the end of their data
+            let mem_start = if use_mem && cx().a(5) == 0 { stream_total + cx().a(4) as usize } else { 0 };
+            let mem_kind = cx().a(3) as u8;
+            // (only the cursor kinds have a position; the plain slice / vector kinds ignore it)
+            let mem_start = if mem_kind % 3 == 0 || (mem_kind % 3 == 1 && !is_read) { 0 } else { mem_start };
+            let mut memep = MemEp::new_at(mem_kind, stream_total, mem_start);
+            let stream_total = if mem_start > 0 { 0 } else { stream_total };
             let is_read_op = matches!(opk, OpK::ReadFrom | OpK::ReadExactFrom | OpK::DirectReadExact);
             let mut fdfile = crate::gmworld::memfd(0);
             if use_fd {
@@ -563,7 +581,9 @@ impl Scenario for Stream {
             }
             // errors do not come from nowhere
             if let Res::Err(e, _, _) = &res {
-                let cause = ep.calls.iter().any(|c| matches!(c.beh, Beh::Hard(_)) || (c.n == 0 && c.beh != Beh::Intr)) || !range_valid || (exact && moved < count);
+                // a zero-byte answer explains an error of the exact forms and of the write-out forms (a
+                // sink that accepts nothing is WriteZero); an up-to read at end of stream reports what moved
+                let cause = ep.calls.iter().any(|c| matches!(c.beh, Beh::Hard(_)) || ((exact || !is_read) && c.n == 0 && c.beh != Beh::Intr)) || !range_valid || (exact && moved < count);
                 if !cause {
                     cx().violate("C14", "C14/spurious-error", fp("error without cause"), format!("{}: returned {} although every endpoint call made progress and the range is valid", desc, e));
                 }
